@@ -75,6 +75,19 @@ func (e *Engine) RunShowCase(c *ShowCase, dir string) *Outcome {
 		}
 		e.Stats.Schedules.Add(scheduleDigest(res.Trace))
 		got, gotInj := progen.ParseShow(res.Stdout)
+		if len(want) > 0 && strings.TrimSpace(res.Stdout) != "" {
+			understood := false
+			for k := range want {
+				if _, ok := got[k]; ok {
+					understood = true
+				}
+			}
+			if !understood || !strings.Contains(res.Stdout, "\tOutputs given ") {
+				// a different rendering of `wire show` is not a violation of C19; the reference parser cannot judge it
+				out.Infra = "the output format of `wire show` is not the one the reference parser understands: " + firstLines(res.Stdout, 3)
+				return out
+			}
+		}
 		out.Log = append(out.Log, fmt.Sprintf("show under %s: %d sets, %d injectors", it, len(got), len(gotInj)))
 		var names []string
 		for k := range want {
